@@ -137,6 +137,8 @@ class C17(Engine):
         return len(FORMATS) * 4
 
     def plan(self, rng, index):
+        if index >= self.directed() and rng.chance(1, 12):
+            return self.port_plan(rng)
         fmt, ext = FORMATS[index % len(FORMATS)] if index < self.directed() else rng.pick(FORMATS)
         cpu = rng.pick(images.IMAGE_CPUS) if rng.chance(2, 3) else rng.pick(progs.cpus())["name"]
         if rng.chance(1, 3):
@@ -229,6 +231,39 @@ class C17(Engine):
             plan["faults"].append({"kind": rng.pick(["read_eio", "read_eof"]), "path": name, "nth": rng.pick([0, 1, 2, 3]),
                                    "offset": rng.below(600), "errno": "EIO"})
         return plan
+
+    def port_plan(self, rng):
+        """A program that really reads and writes the simulated serial port / break_io address, run with
+        every combination of present, missing and absent serial files."""
+        port = rng.pick([0x10, 0x200, 0x1fe])
+        body = []
+        for _ in range(rng.range(2, 6)):
+            body.append(rng.pick(["  mov.b &0x%x, r4", "  mov.b #65, &0x%x", "  mov.w &0x%x, r5", "  mov.w r5, &0x%x",
+                                  "  add.b &0x%x, r6", "  mov.b r4, &0x%x", "  cmp.b #0, &0x%x", "  xor.w #0x5a5a, &0x%x"]) % port)
+        src = ".msp430\n.org 0xf000\nstart:\n" + "\n".join(body) + "\n  jmp start\n.org 0xfffe\n.dw start\n"
+        sin = rng.pick(["ser.in", "ser.in", "missing.in", ""])
+        sout = rng.pick(["ser.out", "ser.out", "nodir/ser.out", ""])
+        argv = ["-msp430", "-sim_serial", "0x%x" % port, sin, sout]
+        if rng.chance(1, 4):
+            argv += ["-break_io", "0x%x" % rng.pick([port, port + 1, 0x300])]
+        mode = rng.pick(["interactive", "interactive", "-run"])
+        lines, sigs = [], []
+        if mode == "-run":
+            argv.append("-run")
+            sigs.append({"trigger": "during", "k": rng.pick([0, 3, 40, 300]), "after": 0, "repeat": rng.pick([7, 50])})
+        else:
+            for _ in range(rng.range(1, 8)):
+                c = rng.pick(["step", "step", "", "registers", "speed 1000", "run", "print 0x%x-0x%x" % (port, port + 4), "reset"])
+                lines.append(c)
+                if c in ("run", "step", ""):
+                    sigs.append({"trigger": "during", "k": rng.pick([0, 2, 40, 300]), "after": len(lines), "repeat": rng.pick([7, 50])})
+            lines.append("quit")
+        argv.append("obj.hex")
+        return {"fmt": "hex", "ext": "hex", "cpu": "msp430", "src": src, "ti_txt": None, "damage_seed": rng.u64(), "ndamage": 0,
+                "env": {"clock0": 1291231234, "heap_fill": rng.below(4), "heap_seed": rng.u64(), "stack_fill": rng.below(4),
+                        "stack_seed": rng.u64(), "chunk_seed": 0},
+                "faults": [], "serial": rng.bytes(rng.below(12)).decode("latin-1"), "name": "obj.hex", "argv": argv, "mode": mode,
+                "console": lines, "sigs": sigs}
 
     def run(self, ex, plan):
         res = RunResult()
